@@ -19,6 +19,7 @@ LEVEL_TEXT += (' Results returned by closures (e.g. per-attribute results inside
 LEVEL_TEXT += (' (E5.key) deferred statements and attributes are never identified by their rendered text.')
 
 
+LEVEL_TEXT += (' (E3.all) the attribute loops of the attribute statements (strict, lazy collection, lazy evaluation) process every attribute: no successful return from inside the loop.')
 def run(prog, rep):
     rep.rule("E5", "container fields of the graph are mutated only by their designated functions (see level text)")
     n = 0
@@ -32,6 +33,9 @@ def run(prog, rep):
                           "attribute values change only through Attributes::add")
     rep.floor("E5", n, 4, "container mutation sites")
     e5.no_dropped_elements(prog, rep)
+    from ..engines import e3_driver
+    na = e3_driver.element_loops_complete(prog, rep)
+    rep.floor("E3.all", na, 16, "element loops of the interpreters")
     e5.no_text_keyed_tables(prog, rep)
     # whole-attribute-set assignments
     for owner in ("tsg::graph::Edge", "tsg::graph::GraphNode"):
